@@ -2,6 +2,7 @@ import MidnightZK.Proofs.C05.Crt
 import MidnightZK.Proofs.C05.Gate
 import MidnightZK.Proofs.C05.Limbs
 import MidnightZK.Proofs.C05.Big
+import MidnightZK.Proofs.C05.EndToEnd
 import MidnightZK.Gen.C05Params
 /-!
 # C05 — foreign-field and big-integer gadgets are complete and sound
@@ -300,6 +301,270 @@ theorem limb_interval_ops (x y lx ux ly uy c k : Int) (hx : lx ≤ x ∧ x ≤ u
   have h2 : k * x ≤ ux * k := by rw [Int.mul_comm k x]; exact Int.mul_le_mul_of_nonneg_right hx.2 hk
   refine ⟨⟨by omega, by omega⟩, ⟨by omega, by omega⟩, ⟨by omega, by omega⟩, ⟨by omega, by omega⟩⟩
 
+
+/-! ## End to end: gate identities + the range checks AS EMITTED + tracked bounds
+
+The executable emitter (`Model/C05/Chip.lean`: `normEvent`, `mulEvent`, `freshLimbs`) produces, for
+every operation, the regions of the foreign chip with the bit length of every range check and the
+source of every copied-in limb; the correspondence (`fpt` lines) compares exactly these events with
+what the real synthesis emits (bit lengths logged at the real decomposition chip, wiring from the
+real copy constraints). The theorems below start from the events the emitter produces. -/
+
+/-- What `FieldChip::configure` computes (`ChipCfg.ofParams`): the bounds of both gates and the
+well-formed widths of the parameter set. -/
+theorem ofParams_spec (P : Params) (c : ChipCfg) (h : ChipCfg.ofParams P = some c) :
+    c.P = P ∧ P.mulBounds = .ok c.mulB ∧ P.normBounds = .ok c.normB ∧
+      P.wellFormedLog2Bounds = some c.wfLog2 := by
+  unfold ChipCfg.ofParams at h
+  split at h
+  · next mb nb wf h1 h2 h3 => cases h; exact ⟨rfl, h1, h2, h3⟩
+  · cases h
+
+/-- The range checks emitted for the auxiliary cells are the ones the soundness theorems need:
+for every result `b` of `get_identity_auxiliary_bounds`, a quotient cell range-checked with the
+emitted bit length `uBits b` (`assert_less_than_pow2(u, log2 u_max)`) lies in `[0, u_max)`, and
+cells `vj` range-checked with the emitted bit lengths `vBits b` lie in `[0, vj_max)`. (An emitted
+bit length one larger — `u_max·2` — would break this theorem's use below; one smaller would break
+completeness, `compiled_bounds_are_powers_of_two`.) -/
+theorem emitted_range_checks_sound (p m : Int) (moduli : List Int) (eb : Int × Int)
+    (mjb : List (Int × Int)) (b : AuxBounds) (hb : identityAuxBounds p m moduli eb mjb = .ok b)
+    (u : Int) (vjs : List Int) (hu : 0 ≤ u ∧ u < 2 ^ ChipCfg.uBits b)
+    (hv : bitsOk (ChipCfg.vBits b) vjs) :
+    (0 ≤ u ∧ u < b.uMax) ∧ vjsInRange b.vs vjs = true := by
+  obtain ⟨h1, h2⟩ := identityAuxBounds_pos p m moduli eb mjb b hb
+  exact ⟨⟨hu.1, lt_uMax_of_bits b h1 u hu.2⟩, vjsInRange_of_bits b.vs vjs h2 hv⟩
+
+example : bitsOk [3, 1] [7, 0] ∧ ¬ bitsOk [3, 1] [8, 0] := by
+  simp [bitsOk]
+
+/-- Exactness of the emitted bit lengths on the compiled-in sets: `u_max` and every `vj_max` of
+both gates are powers of two, so `assert_lower_than_fixed(cell, bound)` is the single lookup-based
+check `cell < 2^bits` with `2^bits = bound` (neither looser — soundness — nor tighter —
+completeness — than the bound computed at configure time). -/
+def pow2Exact (b : AuxBounds) : Bool :=
+  decide ((2 : Int) ^ ChipCfg.uBits b = b.uMax) &&
+    b.vs.all (fun vb => decide ((2 : Int) ^ Nat.log2 vb.2.toNat = vb.2))
+
+theorem compiled_bounds_are_powers_of_two : ∀ P ∈ Gen.paramSets,
+    (match P.mulBounds with | .ok b => pow2Exact b | .error _ => false) = true ∧
+    (match P.normBounds with | .ok b => pow2Exact b | .error _ => false) = true := by
+  decide +kernel
+
+/-- `norm_sound_end_to_end` (`make_canonical` → `norm::normalize`): take ANY assignment of the
+cells of a "Foreign norm" region — input limb integers `xs` within the bounds the chip tracks for
+`x` (the invariant every operation maintains), output limbs `zs`, `u`, `vj` — such that the guard
+of `make_canonical` passed, the range checks hold with the bit lengths AS EMITTED in the region's
+event (`normEvent`: well-formed widths on `zs`, `uBits`, `vBits`), and the gate identities hold.
+Then input and output represent the same residue and the output lies within
+`well_formed_bounds` (the bounds the chip records for it). -/
+theorem norm_sound_end_to_end (c : ChipCfg) (hc : ChipCfg.ofParams c.P = some c)
+    (hm : 0 < c.P.m) (hmods : ∀ mj ∈ c.P.moduli, 0 < mj)
+    (hwfL : ∀ k ∈ c.wfLog2, k ≤ c.P.log2Base) (hwn : c.wfLog2.length = c.P.nbLimbs)
+    (x : FVar) (r : Nat) (xs zs : List Int) (u : Int) (vjs : List Int)
+    (hn : x.bounds.length = c.P.nbLimbs)
+    (hguard : c.canonGuard x = true) (hx : within x.bounds xs)
+    (zB : List Nat) (uB : Nat) (vB : List Nat)
+    (hev : c.normEvent r x = .norm r x.src zB uB vB)
+    (hz : bitsOk zB zs) (hu : 0 ≤ u ∧ u < 2 ^ uB) (hv : bitsOk vB vjs)
+    (hg : c.P.normGateHolds c.normB xs zs u vjs = true) :
+    (1 + limbsValue c.P.log2Base xs) % c.P.m = (1 + limbsValue c.P.log2Base zs) % c.P.m ∧
+      within c.wfBounds zs := by
+  obtain ⟨_, _, hnb, _⟩ := ofParams_spec c.P c hc
+  simp only [ChipCfg.normEvent, Ev.norm.injEq, true_and] at hev
+  obtain ⟨rfl, rfl, rfl⟩ := hev
+  have hnb' := hnb
+  unfold Params.normBounds at hnb'
+  obtain ⟨hur, hvr⟩ := emitted_range_checks_sound _ _ _ _ _ _ hnb' u vjs hu hv
+  unfold ChipCfg.canonGuard at hguard
+  simp only [Bool.not_eq_true'] at hguard
+  have hxg := within_guard c.P.maxLimbBound x.bounds xs hguard hx
+  have hzb := bitsOk_lt_base c.P.log2Base c.wfLog2 zs hwfL hz
+  refine ⟨norm_gate_sound c.P c.normB hm hmods hnb xs zs u vjs
+    (by rw [within_length _ _ hx, hn]) (by rw [bitsOk_length _ _ hz, hwn]) hxg
+    (by unfold Params.base; exact hzb) hur hvr hg, ?_⟩
+  unfold ChipCfg.wfBounds
+  exact within_wf_of_bits _ _ hz
+
+/-- `mul_sound_end_to_end` (`assign_mul` → `mul::assert_mul(l, y, r)`, `l·y = r`; for a division
+`l` is the fresh quotient and `r` the dividend): ANY assignment of the cells of a "Foreign
+multiplication" region whose three copied-in operands lie within `well_formed_bounds` (operands
+after `normalize`: `normalize_sound_end_to_end`; the fresh result: range-checked at assignment
+with the well-formed widths, `assign_event_well_formed`), whose `u`, `vj` satisfy the range checks
+with the bit lengths AS EMITTED in the region's event (`mulEvent`), and that satisfies the gate
+identities, represents a correct product modulo `m`. -/
+theorem mul_sound_end_to_end (c : ChipCfg) (hc : ChipCfg.ofParams c.P = some c)
+    (hm : 0 < c.P.m) (hmods : ∀ mj ∈ c.P.moduli, 0 < mj)
+    (hwfL : ∀ k ∈ c.wfLog2, k ≤ c.P.log2Base) (hwn : c.wfLog2.length = c.P.nbLimbs)
+    (l y rr : FVar) (r : Nat) (xs ys zs : List Int) (u : Int) (vjs : List Int)
+    (hx : within c.wfBounds xs) (hy : within c.wfBounds ys) (hz : within c.wfBounds zs)
+    (uB : Nat) (vB : List Nat)
+    (hev : c.mulEvent r l y rr = .mul r l.src y.src rr.src uB vB)
+    (hu : 0 ≤ u ∧ u < 2 ^ uB) (hv : bitsOk vB vjs)
+    (hg : c.P.mulGateHolds c.mulB xs ys zs u vjs = true) :
+    ((1 + limbsValue c.P.log2Base xs) * (1 + limbsValue c.P.log2Base ys)) % c.P.m =
+      (1 + limbsValue c.P.log2Base zs) % c.P.m := by
+  obtain ⟨_, hmb, _, _⟩ := ofParams_spec c.P c hc
+  simp only [ChipCfg.mulEvent, Ev.mul.injEq, true_and] at hev
+  obtain ⟨rfl, rfl⟩ := hev
+  have hmb' := hmb
+  unfold Params.mulBounds at hmb'
+  obtain ⟨hur, hvr⟩ := emitted_range_checks_sound _ _ _ _ _ _ hmb' u vjs hu hv
+  unfold ChipCfg.wfBounds at hx hy hz
+  have bx := bits_of_within_wf _ _ hx
+  have bY := bits_of_within_wf _ _ hy
+  have bz := bits_of_within_wf _ _ hz
+  have lx := bitsOk_lt_base c.P.log2Base c.wfLog2 xs hwfL bx
+  have ly := bitsOk_lt_base c.P.log2Base c.wfLog2 ys hwfL bY
+  have lz := bitsOk_lt_base c.P.log2Base c.wfLog2 zs hwfL bz
+  exact mul_gate_sound c.P c.mulB hm hmods hmb xs ys zs u vjs
+    (by rw [bitsOk_length _ _ bx, hwn]) (by rw [bitsOk_length _ _ bY, hwn])
+    (by rw [bitsOk_length _ _ bz, hwn])
+    (by unfold Params.base; exact lx) (by unfold Params.base; exact ly)
+    (by unfold Params.base; exact lz) hur hvr hg
+
+/-- Joint satisfiability of the hypotheses of `norm_sound_end_to_end` and `mul_sound_end_to_end`
+(non-vacuity, and completeness on a sample): for a parameter set, the honest witnesses
+(`normWitness` of an un-normalised vector with negative limbs, `mulWitness` of its product with a
+constant) satisfy the gate identities AND the range checks with the emitted bit lengths, and the
+side conditions on the well-formed widths hold. -/
+def endToEndWitnessOk (P : Params) : Bool :=
+  match ChipCfg.ofParams P with
+  | none => false
+  | some c =>
+    let xs : List Int := (List.range c.n).map (fun i => if i % 2 = 0 then (5 : Int) + i else -(3 : Int) - i)
+    let w := c.P.normWitness c.normB xs
+    let zs := w.1
+    let ys := c.limbsOf 12345
+    let pz := c.limbsOf ((c.value ⟨zs, [], none, []⟩ * 12345) % c.m)
+    let mw := c.P.mulWitness c.mulB zs ys pz
+    c.P.normGateHolds c.normB xs zs w.2.1 w.2.2 && decide (0 ≤ w.2.1)
+      && decide (w.2.1 < 2 ^ ChipCfg.uBits c.normB)
+      && ((ChipCfg.vBits c.normB).zip w.2.2).all (fun t => decide (0 ≤ t.2) && decide (t.2 < 2 ^ t.1))
+      && (c.wfLog2.zip zs).all (fun t => decide (0 ≤ t.2) && decide (t.2 < 2 ^ t.1))
+      && c.P.mulGateHolds c.mulB zs ys pz mw.1 mw.2 && decide (0 ≤ mw.1)
+      && decide (mw.1 < 2 ^ ChipCfg.uBits c.mulB)
+      && ((ChipCfg.vBits c.mulB).zip mw.2).all (fun t => decide (0 ≤ t.2) && decide (t.2 < 2 ^ t.1))
+      && c.wfLog2.all (· ≤ c.P.log2Base) && decide (c.wfLog2.length = c.P.nbLimbs)
+
+/-- Every compiled-in parameter set configures (`ChipCfg.ofParams`), satisfies the side conditions
+`wf[i] ≤ LOG2_BASE`, `#wf = NB_LIMBS` of the end-to-end theorems, and the honest witnesses pass the
+emitted range checks (so the emitted bit lengths are not too tight). -/
+theorem compiled_end_to_end_hypotheses : ∀ P ∈ Gen.paramSets, endToEndWitnessOk P = true := by
+  decide +kernel
+
+/-- The fresh limbs of `assign` / `assign_mul` (event `A`: limb `i` assigned by
+`assign_lower_than_fixed(·, 2^wf[i])`) lie within `well_formed_bounds`, and conversely. -/
+theorem assign_event_well_formed (c : ChipCfg) (zs : List Int) :
+    bitsOk c.wfLog2 zs ↔ within c.wfBounds zs := by
+  unfold ChipCfg.wfBounds
+  exact ⟨within_wf_of_bits _ _, bits_of_within_wf _ _⟩
+
+/-- What `FieldChip::normalize(x)` enforces on an arbitrary assignment (input limb integers `xs`,
+limbs `zs` of the returned element): either the tracked bounds of `x` are well-formed and the same
+cells are returned, or `make_canonical` runs — its guard passed and a "Foreign norm" region with
+the emitted range checks and the gate identities relates `xs` and `zs`. -/
+def NormalizedBy (c : ChipCfg) (x : FVar) (xs zs : List Int) : Prop :=
+  (c.isWellFormed x = true ∧ zs = xs) ∨
+  (c.canonGuard x = true ∧ ∃ (r : Nat) (u : Int) (vjs : List Int) (zB : List Nat) (uB : Nat)
+      (vB : List Nat),
+    c.normEvent r x = .norm r x.src zB uB vB ∧ bitsOk zB zs ∧ (0 ≤ u ∧ u < 2 ^ uB) ∧
+      bitsOk vB vjs ∧ c.P.normGateHolds c.normB xs zs u vjs = true)
+
+/-- `normalize_sound_end_to_end`: whichever branch `normalize` takes, the returned limbs represent
+the same residue as the input and lie within `well_formed_bounds` — for every assignment. This is
+what `mul`, `div`, `assert_equal`, `is_zero`, `as_public_input` and the bit/byte conversions rely
+on before they look at limbs. -/
+theorem normalize_sound_end_to_end (c : ChipCfg) (hc : ChipCfg.ofParams c.P = some c)
+    (hm : 0 < c.P.m) (hmods : ∀ mj ∈ c.P.moduli, 0 < mj)
+    (hwfL : ∀ k ∈ c.wfLog2, k ≤ c.P.log2Base) (hwn : c.wfLog2.length = c.P.nbLimbs)
+    (x : FVar) (xs zs : List Int) (hn : x.bounds.length = c.P.nbLimbs)
+    (hx : within x.bounds xs) (h : NormalizedBy c x xs zs) :
+    (1 + limbsValue c.P.log2Base xs) % c.P.m = (1 + limbsValue c.P.log2Base zs) % c.P.m ∧
+      within c.wfBounds zs := by
+  rcases h with ⟨hwf, rfl⟩ | ⟨hguard, r, u, vjs, zB, uB, vB, hev, hz, hu, hv, hg⟩
+  · refine ⟨rfl, ?_⟩
+    unfold ChipCfg.wfBounds
+    unfold ChipCfg.isWellFormed at hwf
+    exact within_wf_of_isWellFormed x.bounds c.wfLog2 zs (by rw [hn, hwn]) hwf hx
+  · exact norm_sound_end_to_end c hc hm hmods hwfL hwn x r xs zs u vjs hn hguard hx zB uB vB hev hz hu
+      hv hg
+
+/-- `add_sound_end_to_end` (lazy `add`, no gate of the foreign chip): for limb integers within the
+tracked bounds of the operands, the limb-wise sums `xᵢ + yᵢ + cᵢ` (native linear combinations,
+`c = [1, 0, …]`) lie within the bounds `add` records and represent the sum. The recorded bounds
+stay below `max_limb_bound` (guard of `make_canonical`) ≪ native modulus, so the native cells
+determine these integers. -/
+theorem add_sound_end_to_end (L : Nat) (bx bY : List (Int × Int)) (xs ys : List Int) (n : Nat)
+    (hbx : bx.length = n + 1) (hbY : bY.length = n + 1) (hx : within bx xs) (hy : within bY ys) :
+    within (ChipCfg.zipB3 bx bY (1 :: List.replicate n 0) (fun a b k => (a.1 + b.1 + k, a.2 + b.2 + k)))
+      (ChipCfg.zip3 xs ys (1 :: List.replicate n 0) (fun a b k => a + b + k)) ∧
+    1 + limbsValue L (ChipCfg.zip3 xs ys (1 :: List.replicate n 0) (fun a b k => a + b + k)) =
+      (1 + limbsValue L xs) + (1 + limbsValue L ys) :=
+  ⟨within_zip3_add bx bY _ xs ys hx hy (by simp [hbx]) (by simp [hbY]),
+   add_limbs_value L xs ys n (by rw [within_length _ _ hx, hbx]) (by rw [within_length _ _ hy, hbY])⟩
+
+/-- `sub_sound_end_to_end` (lazy `sub`, correction `-1`; the lower bound of the result uses the
+UPPER bound of `y` and vice versa). -/
+theorem sub_sound_end_to_end (L : Nat) (bx bY : List (Int × Int)) (xs ys : List Int) (n : Nat)
+    (hbx : bx.length = n + 1) (hbY : bY.length = n + 1) (hx : within bx xs) (hy : within bY ys) :
+    within (ChipCfg.zipB3 bx bY ((-1) :: List.replicate n 0) (fun a b k => (a.1 - b.2 + k, a.2 - b.1 + k)))
+      (ChipCfg.zip3 xs ys ((-1) :: List.replicate n 0) (fun a b k => a - b + k)) ∧
+    1 + limbsValue L (ChipCfg.zip3 xs ys ((-1) :: List.replicate n 0) (fun a b k => a - b + k)) =
+      (1 + limbsValue L xs) - (1 + limbsValue L ys) :=
+  ⟨within_zip3_sub bx bY _ xs ys hx hy (by simp [hbx]) (by simp [hbY]),
+   sub_limbs_value L xs ys n (by rw [within_length _ _ hx, hbx]) (by rw [within_length _ _ hy, hbY])⟩
+
+example : within [(0, 3), (0, 3)] [2, 3] ∧ ¬ within [(0, 3), (0, 3)] [2, 4] := by simp [within]
+
+/-- `assert_equal_sound_end_to_end`: `assert_equal(x, y)` normalises both operands and constrains
+the returned limb cells to be pairwise equal (event `E`). For EVERY assignment satisfying what the
+two normalisations enforce and that equality, `x` and `y` represent the same residue: the
+assertion never identifies different residues, whichever representations the operands have
+(un-normalised chains included). -/
+theorem assert_equal_sound_end_to_end (c : ChipCfg) (hc : ChipCfg.ofParams c.P = some c)
+    (hm : 0 < c.P.m) (hmods : ∀ mj ∈ c.P.moduli, 0 < mj)
+    (hwfL : ∀ k ∈ c.wfLog2, k ≤ c.P.log2Base) (hwn : c.wfLog2.length = c.P.nbLimbs)
+    (x y : FVar) (xs ys zx zy : List Int)
+    (hnx : x.bounds.length = c.P.nbLimbs) (hny : y.bounds.length = c.P.nbLimbs)
+    (hx : within x.bounds xs) (hy : within y.bounds ys)
+    (h1 : NormalizedBy c x xs zx) (h2 : NormalizedBy c y ys zy) (heq : zx = zy) :
+    (1 + limbsValue c.P.log2Base xs) % c.P.m = (1 + limbsValue c.P.log2Base ys) % c.P.m := by
+  have a := (normalize_sound_end_to_end c hc hm hmods hwfL hwn x xs zx hnx hx h1).1
+  have b := (normalize_sound_end_to_end c hc hm hmods hwfL hwn y ys zy hny hy h2).1
+  rw [a, b, heq]
+
+/-- `is_equal_sound_end_to_end` (`is_equal(x, y) = is_zero(x - y)`; also `is_zero`,
+`assert_non_zero`, `is_equal_to_fixed`): let `ds` be limb integers representing `X - Y` (lazy
+`sub`, `sub_sound_end_to_end`), `zs` what `normalize` returns for them (a well-formed vector, split
+as low limbs and most significant limb), `z0` the vector `limbs_of_zero` (well-formed, representing
+`m`: `uniqueZeroOk`, kernel-checked for every compiled-in set). Then the comparison "`zs` equals
+`z0` limb by limb" holds IF AND ONLY IF `X ≡ Y (mod m)` — for every well-formed vector the prover
+may put in the normalisation: two representations of one residue are treated identically and
+different residues are never identified. -/
+theorem is_equal_sound_end_to_end (L k : Nat) (m X Y : Int) (lo lo0 : List Int) (top top0 : Int)
+    (hlen : lo.length = lo0.length) (hk : k ≤ L)
+    (hlo : ∀ x ∈ lo, 0 ≤ x ∧ x < 2 ^ L) (h0 : 0 ≤ top) (h1 : top < 2 ^ k)
+    (hlo0 : ∀ x ∈ lo0, 0 ≤ x ∧ x < 2 ^ L) (h00 : 0 ≤ top0) (h10 : top0 < 2 ^ k)
+    (h2m : (2 : Int) ^ (L * lo.length + k) < 2 * m)
+    (hz0 : 1 + limbsValue L (lo0 ++ [top0]) = m)
+    (hres : (1 + limbsValue L (lo ++ [top])) % m = (X - Y) % m) :
+    lo ++ [top] = lo0 ++ [top0] ↔ X % m = Y % m := by
+  constructor
+  · intro h
+    rw [h, hz0, Int.emod_self] at hres
+    have : m ∣ X - Y := Int.dvd_of_emod_eq_zero hres.symm
+    exact Int.emod_eq_emod_iff_emod_sub_eq_zero.mpr (Int.emod_eq_zero_of_dvd this)
+  · intro h
+    have hd : m ∣ X - Y := Int.dvd_of_emod_eq_zero (Int.emod_eq_emod_iff_emod_sub_eq_zero.mp h)
+    have hz : m ∣ 1 + limbsValue L (lo ++ [top]) := by
+      have := Int.emod_eq_zero_of_dvd hd
+      rw [this] at hres
+      exact Int.dvd_of_emod_eq_zero hres
+    exact is_zero_respects_residue L k m lo lo0 top top0 hlen hk hlo h0 h1 hlo0 h00 h10 h2m hz
+      (by rw [hz0])
+
+example : ([2] ++ [(1 : Int)] = [2] ++ [1] ↔ (10 : Int) % 7 = 3 % 7) := by decide
+
 /-! ## Big unsigned integers -/
 
 /-- `bound_of_addition` (biguint/types.rs) never under-approximates: `a < 2^b1`, `b < 2^b2` imply
@@ -395,5 +660,53 @@ theorem lower_than_sound (lb : Nat) (xs ys : List Nat) (hl : xs.length = ys.leng
       simp [h, h2, this]
 
 example : Big.geqFold [5, 1] [9, 0] true = true ∧ Big.geqFold [5, 0] [9, 0] true = false := by decide
+
+/-! ## BigUint operations end to end (limb products / sums + carry chain + equality) -/
+
+/-- `add` end to end (`BigUintGadget::add` = limb-wise native additions, then `normalize` whose
+final carry is asserted to be zero): whenever the carry chain of the model runs on the limb-wise
+sums and the final carry is zero, the output limbs are normalised (`< 2^lb`) and represent
+`x + y` — for every operand pair and every limb count. -/
+theorem big_add_sound_end_to_end (lb numBits : Nat) (xs ys sbs ls : List Nat)
+    (h : Big.normChain lb numBits 0 0 (Big.zipAddLimbs xs ys) sbs = .ok (ls, 0)) :
+    (∀ l ∈ ls, l < 2 ^ lb) ∧ bigValue lb ls = bigValue lb xs + bigValue lb ys := by
+  obtain ⟨_, h2, h3⟩ := normalize_value lb numBits _ sbs ls 0 h
+  refine ⟨h2, ?_⟩
+  rw [← add_limbs_sound lb xs ys]
+  simpa using h3
+
+/-- `mul` end to end: schoolbook products, then `normalize` with zero final carry. -/
+theorem big_mul_sound_end_to_end (lb numBits : Nat) (xs ys sbs ls : List Nat)
+    (h : Big.normChain lb numBits 0 0 (Big.mulLimbs xs ys) sbs = .ok (ls, 0)) :
+    (∀ l ∈ ls, l < 2 ^ lb) ∧ bigValue lb ls = bigValue lb xs * bigValue lb ys := by
+  obtain ⟨_, h2, h3⟩ := normalize_value lb numBits _ sbs ls 0 h
+  refine ⟨h2, ?_⟩
+  rw [← mul_limbs_sound lb xs ys]
+  simpa using h3
+
+/-- `sub` end to end (`res` is a prover-chosen witness, range-checked limb by limb;
+`res + y` is normalised and asserted equal to `x`): the constraints force `res = x - y` AND
+`y ≤ x` — on an underflow no witness exists (the circuit is unsatisfiable), for every limb count. -/
+theorem big_sub_sound_end_to_end (lb numBits : Nat) (xs ys rs sbs ls : List Nat)
+    (h : Big.normChain lb numBits 0 0 (Big.zipAddLimbs rs ys) sbs = .ok (ls, 0))
+    (heq : bigValue lb ls = bigValue lb xs) :
+    bigValue lb rs = bigValue lb xs - bigValue lb ys ∧ bigValue lb ys ≤ bigValue lb xs := by
+  have := (big_add_sound_end_to_end lb numBits rs ys sbs ls h).2
+  omega
+
+/-- `div_rem` end to end: `q`, `r` prover-chosen; `q·y` (schoolbook + normalise), `+ r`
+(normalise), asserted equal to `x`, and `r < y` (`lower_than`): quotient and remainder are pinned. -/
+theorem big_div_rem_sound_end_to_end (lb numBits : Nat) (xs ys qs rs sb1 sb2 ps ls : List Nat)
+    (h1 : Big.normChain lb numBits 0 0 (Big.mulLimbs qs ys) sb1 = .ok (ps, 0))
+    (h2 : Big.normChain lb numBits 0 0 (Big.zipAddLimbs ps rs) sb2 = .ok (ls, 0))
+    (heq : bigValue lb ls = bigValue lb xs) (hlt : bigValue lb rs < bigValue lb ys) :
+    bigValue lb qs = bigValue lb xs / bigValue lb ys ∧ bigValue lb rs = bigValue lb xs % bigValue lb ys := by
+  have a := (big_mul_sound_end_to_end lb numBits qs ys sb1 ps h1).2
+  have b := (big_add_sound_end_to_end lb numBits ps rs sb2 ls h2).2
+  exact div_rem_sound _ _ _ _ (by rw [← heq, b, a]) hlt
+
+example : (match Big.normChain 4 255 0 0 (Big.zipAddLimbs [15, 1] [3, 2]) [5, 3] with
+    | .ok r => r == ([2, 4], 0)
+    | .error _ => false) = true := by decide +kernel
 
 end MidnightZK.C05
